@@ -203,4 +203,33 @@ DeliveryIsNextOfPeer ==
 
 \* liveness, assuming every agent keeps dequeuing (Fairness)
 EventuallyDelivered == <>(AllSent /\ Quiescent)
+
+---------------------------------------------------------------------------
+\* NAMED DEVIATION - head-of-line blocking.  Demuxer::demux awaits room in the
+\* subscriber's queue while holding the segment, and there is one demuxer per
+\* side: when the agents in L stop calling dequeue_chunk, a chunk for one of
+\* them eventually sits in hand[] in front of a full egress queue and *every*
+\* other protocol of that side is stuck behind it.  Not a listed property
+\* (C20 speaks about what is delivered, not when); recorded here so that the
+\* specification states the behaviour: under SpecStalled(L) the property
+\* OthersEventuallyDelivered(L) is VIOLATED (MCMuxHOL.cfg expects the
+\* counterexample), while safety (InOrderExactlyOnce, NoLeak) still holds.
+NextExcept(L) ==
+    \/ \E a \in Agents : Enqueue(a)
+    \/ \E s \in Sides : MuxTick(s)
+    \/ \E s \in Sides : DemuxRead(s)
+    \/ \E s \in Sides : DemuxDeliver(s)
+    \/ \E a \in Agents \ L : Dequeue(a)
+    \/ Done
+
+FairnessExcept(L) ==
+    /\ \A a \in Agents : WF_vars(Enqueue(a))
+    /\ \A a \in Agents \ L : WF_vars(Dequeue(a))
+    /\ \A s \in Sides : WF_vars(MuxTick(s)) /\ WF_vars(DemuxRead(s)) /\ WF_vars(DemuxDeliver(s))
+
+SpecStalled(L) == Init /\ [][NextExcept(L)]_vars /\ FairnessExcept(L)
+
+\* everything sent to agents that do keep dequeuing arrives (fails: head-of-line blocking)
+OthersEventuallyDelivered(L) ==
+    <>(\A a \in Agents : (Peer(a) \in Agents \ L) => (nsent[a] = Quota[a] /\ recv[Peer(a)] = SentSeq(a)))
 =============================================================================
